@@ -964,7 +964,7 @@ fn assignable_dot<'t>(ctx: Context<'t>, accessed: Assignable) -> ParseResult<'t,
     };
 
     let access = Assignable {
-        span: ctx.span(),
+        span: ident.span,
         kind: Access(Box::new(accessed), ident),
     };
     sub_assignable(ctx, access)
